@@ -32,6 +32,12 @@ type Cell struct {
 type PtrV struct {
 	c    *Cell
 	path []int
+	sym  *symIndex // element of the array at path selected by a symbolic index (read-only)
+}
+
+type symIndex struct {
+	idx    *Term
+	signed bool
 }
 
 type SliceV struct {
@@ -352,7 +358,7 @@ func setPath(v Value, path []int, nv Value) Value {
 
 func (p PtrV) load() Value     { return getPath(p.c.v, p.path) }
 func (p PtrV) store(v Value)   { p.c.v = setPath(p.c.v, p.path, v) }
-func (p PtrV) sub(i int) PtrV  { np := make([]int, len(p.path)+1); copy(np, p.path); np[len(p.path)] = i; return PtrV{p.c, np} }
+func (p PtrV) sub(i int) PtrV  { np := make([]int, len(p.path)+1); copy(np, p.path); np[len(p.path)] = i; return PtrV{c: p.c, path: np} }
 func samePath(a, b []int) bool {
 	if len(a) != len(b) {
 		return false
@@ -369,7 +375,7 @@ func (s SliceV) elemPtr(i int) PtrV {
 	np := make([]int, len(s.path)+1)
 	copy(np, s.path)
 	np[len(s.path)] = s.off + i
-	return PtrV{s.c, np}
+	return PtrV{c: s.c, path: np}
 }
 func (s SliceV) get(i int) Value { return s.elemPtr(i).load() }
 func (s SliceV) elems() []Value {
